@@ -145,6 +145,12 @@ Qed.
 Lemma canonical_cl : canonical s_content_length.
 Proof. split; reflexivity. Qed.
 
+Lemma fix_pragma_ok m : keys_ok m -> keys_ok (fix_pragma m).
+Proof.
+  intros Hm. unfold fix_pragma. destruct (hfind s_pragma m) as [[|v vs]|]; try exact Hm.
+  destruct (bytes_eqb v s_no_cache); [|exact Hm].
+  destruct (hfind s_cache_control m); [exact Hm|]. apply hset_ok; [split; reflexivity|exact Hm].
+Qed.
 Lemma fix_te_ok m m' ch : keys_ok m -> fix_te m = Some (m', ch) -> keys_ok m'.
 Proof.
   intros Hm. unfold fix_te. destruct (hfind s_transfer_encoding m) as [vs|]; [|intros H; inversion H; subst; exact Hm].
@@ -179,7 +185,7 @@ Lemma read_request_ok pairs m ch n :
   names_ok pairs = true -> read_request pairs = Some (m, ch, n) -> keys_ok m.
 Proof.
   intros Hn. unfold read_request.
-  pose proof (hdel_ok s_host _ (parse_headers_ok pairs Hn)) as H0.
+  pose proof (fix_pragma_ok _ (hdel_ok s_host _ (parse_headers_ok pairs Hn))) as H0.
   destruct (fix_te _) as [[m1 c1]|] eqn:E1; [|discriminate].
   pose proof (fix_te_ok _ _ _ H0 E1) as H1.
   destruct (fix_length m1 c1) as [[m2 n2]|] eqn:E2; [|discriminate].
@@ -356,11 +362,17 @@ Proof.
     apply IH. destruct (canon_key (fst p)); [exact Hacc|apply hadd_vals; exact Hacc]. }
   apply G. constructor.
 Qed.
+Lemma fix_pragma_vals m : vals_ok m -> vals_ok (fix_pragma m).
+Proof.
+  intros Hm. unfold fix_pragma. destruct (hfind s_pragma m) as [[|v vs]|]; try exact Hm.
+  destruct (bytes_eqb v s_no_cache); [|exact Hm].
+  destruct (hfind s_cache_control m); [exact Hm|]. apply hset_vals. exact Hm.
+Qed.
 Lemma read_request_vals pairs m ch n : read_request pairs = Some (m, ch, n) -> vals_ok m.
 Proof.
   unfold read_request.
-  pose proof (hdel_vals s_host _ (parse_headers_vals pairs)) as H0.
-  set (m0 := hdel s_host (parse_headers pairs)) in *.
+  pose proof (fix_pragma_vals _ (hdel_vals s_host _ (parse_headers_vals pairs))) as H0.
+  set (m0 := fix_pragma (hdel s_host (parse_headers pairs))) in *.
   unfold fix_te. destruct (hfind s_transfer_encoding m0) as [tvs|].
   - destruct (te_loop _ _) as [[|[|k]]|]; try discriminate.
     + pose proof (hdel_vals s_transfer_encoding _ H0) as H1. revert H1.
@@ -457,3 +469,9 @@ Proof.
   rewrite (F s_transfer_encoding) in Hall by (try (split; reflexivity); simpl; tauto).
   discriminate.
 Qed.
+
+(* the corpus case kf1-conn-nominated (corpus/C26/findings.case) is well-formed and in finding class 1 *)
+Definition corpus_kf1 : val :=
+  VL [VZ 0; VL [VL [VB s_connection; VB [120;45;102;111;111;44;32;99;108;111;115;101]]; VL [VB [88;45;70;111;111]; VB [49]]]].
+Lemma corpus_kf1_ok : wf_C26 corpus_kf1 = true /\ kf_C26 corpus_kf1 = 1.
+Proof. vm_compute. split; reflexivity. Qed.
